@@ -174,8 +174,13 @@ package api
 //@   modifies world
 //@ iface api.DeviceRemoteInterface.AddEntityAndFeatures
 //@   modifies world, held
+// log of entity removals requested from a remote device (C06): ren calls so far, redev/readdr[k] device and address
+//@ ghost ren int
+//@ ghost redev map[int]any
+//@ ghost readdr map[int][]model.AddressEntityType
 //@ iface api.DeviceRemoteInterface.RemoveEntityByAddress
-//@   modifies world, held
+//@   ensures ren == old(ren) + 1 && redev == store(old(redev), old(ren), self) && readdr == store(old(readdr), old(ren), addr)
+//@   modifies world, held, ren, redev, readdr
 //@ iface api.DeviceRemoteInterface.CheckEntityInformation pure ensures[C05] accepted-is-addressed: result == nil ==> entity.Description != nil && entity.Description.EntityAddress != nil && len(entity.Description.EntityAddress.Entity) > 0
 //@ iface api.DeviceLocalInterface.CleanRemoteEntityCaches
 //@   modifies world, held
